@@ -10,6 +10,7 @@ from __future__ import annotations
 import ast
 import itertools
 import os
+import pathlib
 
 import numpy as np
 import pandas as pd
@@ -25,7 +26,7 @@ RULE = ("coarsen_bins: every valid bin table with 1 chromosome of length <=7 and
         "coarsen_cooler: corpus (D1 longer-last-bin tables, chromosomes shorter than k, empty cooler, empty rows at chunk edges, variable tables whose coarsening looks fixed, bin size 1, one-bin chromosomes) x k in {2,3,5,n+1} x chunksize in {1,2,7,nnz+1} (all 16 combinations for the first 7 corpus coolers, 2 chunk sizes per k for the others), "
         "seeded random coolers (fixed / variable / longer-last / variable-that-coarsens-to-fixed tables, 1-4 chromosomes, symmetric and square storage, 9 pixel patterns) x all four k x two chunk sizes, "
         "fixed-width tables of EVERY width 1..60 (thorough 1..200) x k in {2,3,5,7} at function level (chunk stream of CoolerCoarsener vs exact integer division) and end to end for widths 7,49,98,103,107,161,187,196 + random widths <= 2000 with >= 3 coarse bins per chromosome; nproc=2 and the CLI on a few, chains k1;k2 vs k1*k2 (fixed and variable tables), merge/coarsen interleavings, a second value column with agg max/min/sum incl. the D20 corpus (columns=[count,w], columns=[w]); "
-        "non-trivial = nnz>0 and at least 2 old bins; distinct by input hash")
+        "fixed parameter scenarios (output URI in a nested group, append into an existing file, same-file in/out, re-run onto an existing group, mode=w, nproc 2/3 with an uneven span count, CLI -p/--append/-a/-o URI, dtypes full/partial dict, lock=, float64 counts, weight bin column on the input, trailing empty rows, CoolerCoarsener batchsize 2/3); non-trivial = nnz>0 and at least 2 old bins; distinct by input hash")
 TRUSTED = ["pandas groupby(sort=True).aggregate('sum') is modelled as the canonical aggregate (Model/Pixels.v) and observed through CoolerCoarsener",
            "create() stores the concatenation of the chunk stream (property C01/C02, observed here through the output cooler)",
            "multiprocess.Pool.map is order preserving (source-pattern assertion on coarsen_cooler + nproc=2 runs)"]
@@ -760,6 +761,202 @@ def agg_run(tmpdir, tag, case, got_out=None):
     return bad
 
 
+# ---------------------------- part 7: audit of the public parameters (glue), fixed deterministic scenarios
+P_WIDTHS = [[10], [10] * 5 + [4], [10]]           # single-bin chromosomes first and last, a short last bin
+P_PX = [[0, 0, 1], [0, 1, 2], [1, 1, 3], [1, 4, 1], [2, 3, 5], [3, 3, 1], [3, 7, 2], [6, 7, 4], [7, 7, 9]]
+P_PX_TAIL_EMPTY = [[0, 0, 1], [0, 5, 2], [1, 1, 3], [1, 7, 1], [2, 2, 5], [2, 3, 1]]      # rows 3..7 empty
+
+
+def _p_expect(k, px=None):
+    return G.oracle_coarsen(blocks_from_widths(P_WIDTHS), px or P_PX, k)
+
+
+def _p_bad(label, uri, k, px=None, extra=None):
+    """None or a violation: the cooler stored at uri must be the block aggregation by k of the fixed input"""
+    r = G.read_cooler(uri)
+    eb, ep = _p_expect(k, px)
+    if r["bins"] != eb or r["pixels"] != ep or r["sum"] != sum(p[2] for p in (px or P_PX)) or r["nnz"] != len(ep):
+        return {"what": label, "uri": str(uri), "k": k, "bins": r["bins"], "pixels": r["pixels"][:20], "expected_pixels": ep[:20]}
+    return None
+
+
+def _p_base(d, name="a.cool", px=None, **kw):
+    p = d / name
+    G.make_cooler(p, blocks_from_widths(P_WIDTHS), px or P_PX, True, **kw)
+    return p
+
+
+def sc_nested_append_samefile(d):
+    import cooler
+    a = _p_base(d)
+    o = d / "o1.cool"
+    cooler.coarsen_cooler(str(a), f"{o}::/x/y", 2, chunksize=2)                  # output URI in a nested group of a new file
+    bad = _p_bad("output in a nested group", f"{o}::/x/y", 2)
+    cooler.coarsen_cooler(str(a), f"{o}::/z", 3, chunksize=3)                    # default append=True: a second cooler in the same file
+    bad = bad or _p_bad("second cooler appended to an existing file", f"{o}::/z", 3) or _p_bad("first cooler after the append", f"{o}::/x/y", 2)
+    cooler.coarsen_cooler(f"{o}::/x/y", f"{o}::/xx", 2, chunksize=1)             # input and output in the same file (base = URI into a multi-collection file)
+    eb, ep = _p_expect(4)
+    r = G.read_cooler(f"{o}::/xx")
+    if not bad and (r["bins"] != eb or r["pixels"] != ep):
+        bad = {"what": "same-file coarsening of an already coarsened group (2 then 2 = 4)", "pixels": r["pixels"], "expected": ep}
+    cooler.coarsen_cooler(str(a), f"{o}::/z", 2, chunksize=7)                    # re-running onto an existing group replaces it
+    bad = bad or _p_bad("re-run onto an existing group", f"{o}::/z", 2)
+    got = sorted(cooler.fileops.list_coolers(str(o)))
+    if not bad and got != ["/x/y", "/xx", "/z"]:
+        bad = {"what": "groups in the output file", "got": got}
+    cooler.coarsen_cooler(str(a), str(o), 2, chunksize=3, mode="w")              # mode='w' truncates
+    bad = bad or _p_bad("mode='w'", str(o), 2)
+    got = sorted(cooler.fileops.list_coolers(str(o)))
+    if not bad and got != ["/"]:
+        bad = {"what": "mode='w' must truncate the file", "got": got}
+    return bad
+
+
+def sc_nproc_uneven(d):
+    import cooler
+    from cooler._reduce import CoolerCoarsener
+    a = _p_base(d)
+    nspans = len(CoolerCoarsener(str(a), 2, 1, ["count"], None, 1).edges) - 1
+    bad = None
+    for nproc in (2, 3):
+        if nspans % nproc == 0:
+            return {"what": "generator: span count must not be divisible by nproc", "spans": nspans, "nproc": nproc}
+        o = d / f"n{nproc}.cool"
+        cooler.coarsen_cooler(str(a), str(o), 2, chunksize=1, nproc=nproc)
+        bad = bad or _p_bad(f"nproc={nproc} with {nspans} spans", str(o), 2)
+    return bad
+
+
+def sc_cli_flags(d):
+    import cooler
+    from cooler.cli import cli
+    from click.testing import CliRunner
+    a = _p_base(d)
+    o = d / "c.cool"
+    r = CliRunner().invoke(cli, ["coarsen", "-k", "2", "-c", "1", "-p", "2", "-o", f"{o}::/g", str(a)])
+    if r.exit_code != 0:
+        return {"what": "cooler coarsen -p 2 -o file::/g", "exit": r.exit_code, "exception": repr(r.exception)}
+    bad = _p_bad("cooler coarsen -p 2 -o file::/g", f"{o}::/g", 2)
+    r = CliRunner().invoke(cli, ["coarsen", "-k", "3", "-c", "2", "--append", "-o", f"{o}::/h", str(a)])
+    if r.exit_code != 0:
+        return {"what": "cooler coarsen --append", "exit": r.exit_code, "exception": repr(r.exception)}
+    bad = bad or _p_bad("cooler coarsen --append (second group)", f"{o}::/h", 3) or _p_bad("first group after --append", f"{o}::/g", 2)
+    r = CliRunner().invoke(cli, ["coarsen", "-k", "2", "-c", "2", "-a", "-o", f"{o}::/gg", f"{o}::/g"])     # same file: the CLI passes the lock
+    if r.exit_code != 0:
+        return {"what": "cooler coarsen within one file", "exit": r.exit_code, "exception": repr(r.exception)}
+    eb, ep = _p_expect(4)
+    rr = G.read_cooler(f"{o}::/gg")
+    if not bad and (rr["bins"] != eb or rr["pixels"] != ep):
+        bad = {"what": "cooler coarsen within one file (2 then 2 = 4)", "pixels": rr["pixels"], "expected": ep}
+    return bad
+
+
+def sc_dtypes_lock(d):
+    import cooler
+    a = _p_base(d)
+    bad = None
+    o = d / "t1.cool"
+    cooler.coarsen_cooler(str(a), str(o), 2, chunksize=3, dtypes={"count": np.float64})          # full dtypes dict
+    bad = bad or _p_bad("dtypes={'count': float64}", str(o), 2)
+    dt = str(cooler.Cooler(str(o)).pixels().dtypes["count"])
+    if not bad and dt != "float64":
+        bad = {"what": "requested dtype of count", "got": dt}
+    o = d / "t2.cool"
+    cooler.coarsen_cooler(str(a), str(o), 3, chunksize=2, lock=cooler.parallel.lock)             # lock kwarg
+    bad = bad or _p_bad("lock=", str(o), 3)
+    # partial dtypes dict with an extra column: count keeps the input dtype
+    b = d / "w.cool"
+    G.make_cooler(b, blocks_from_widths(P_WIDTHS), P_PX, True, extra=[3, 1, 4, 1, 5, 9, 2, 6, 5])
+    o = d / "t3.cool"
+    cooler.coarsen_cooler(str(b), str(o), 2, chunksize=2, columns=["count", "w"], dtypes={"w": np.float64}, agg={"w": "max"})
+    p = cooler.Cooler(str(o)).pixels()[:]
+    px4 = [[q[0], q[1], q[2], w] for q, w in zip(P_PX, [3, 1, 4, 1, 5, 9, 2, 6, 5])]
+    blocks = blocks_from_widths(P_WIDTHS)
+    e1 = G.oracle_pixels(blocks, px4, 2, "sum", 2)
+    e2 = G.oracle_pixels(blocks, px4, 2, "max", 3)
+    got1 = [[int(x), int(y), int(v)] for x, y, v in zip(p["bin1_id"], p["bin2_id"], p["count"])]
+    got2 = [[int(x), int(y), float(v)] for x, y, v in zip(p["bin1_id"], p["bin2_id"], p["w"])]
+    if not bad and (got1 != e1 or got2 != [[x, y, float(v)] for x, y, v in e2] or str(p["count"].dtype) != "int32" or str(p["w"].dtype) != "float64"):
+        bad = {"what": "partial dtypes dict {'w': float64} with agg {'w': 'max'}", "count": got1[:10], "w": got2[:10],
+               "dtypes": [str(p["count"].dtype), str(p["w"].dtype)]}
+    return bad
+
+
+def sc_shapes(d):
+    import cooler
+    bad = None
+    # float counts (multiples of 1/4: sums are exact), an extra bin column on the input, trailing empty rows
+    fpx = [[p[0], p[1], p[2] / 4.0 + 0.25] for p in P_PX]
+    a = d / "f.cool"
+    G.make_cooler(a, blocks_from_widths(P_WIDTHS), fpx, True, count_dtype="float64", bin_weight=[0.5 + i for i in range(8)])
+    o = d / "f2.cool"
+    cooler.coarsen_cooler(str(a), str(o), 2, chunksize=2)
+    p = cooler.Cooler(str(o)).pixels()[:]
+    got = [[int(x), int(y), float(v)] for x, y, v in zip(p["bin1_id"], p["bin2_id"], p["count"])]
+    exp = [[x, y, float(v)] for x, y, v in G.oracle_pixels(blocks_from_widths(P_WIDTHS), fpx, 2)]
+    if got != exp or str(p["count"].dtype) != "float64":
+        bad = {"what": "float64 counts on a base with a weight bin column", "got": got[:10], "expected": exp[:10], "dtype": str(p["count"].dtype)}
+    b = _p_base(d, "e.cool", px=P_PX_TAIL_EMPTY)
+    for k, cs in ((2, 1), (3, 2), (9, 1)):
+        o = d / f"e{k}.cool"
+        cooler.coarsen_cooler(str(b), str(o), k, chunksize=cs)
+        bad = bad or _p_bad(f"trailing empty rows, k={k}", str(o), k, px=P_PX_TAIL_EMPTY)
+    return bad
+
+
+def sc_batchsize(d):
+    """CoolerCoarsener with batchsize 2 and 3 over the builtin map: same stream as batchsize 1"""
+    a = _p_base(d)
+    case = {"k": 2, "chunksize": 1}
+    ref = impl_coarsener(a, case, 1)
+    for bsz in (2, 3):
+        got = impl_coarsener(a, case, bsz)
+        if got != ref or not chunks_ok(got[1]):
+            return {"what": f"chunk stream with batchsize={bsz} differs from batchsize=1", "got": got[1][:6], "expected": ref[1][:6]}
+    flat = [p for ch in ref[1] for p in ch]
+    if flat != _p_expect(2)[1]:
+        return {"what": "chunk stream", "got": flat}
+    return None
+
+
+SCENARIOS = {"nested/append/same-file/mode": sc_nested_append_samefile, "nproc with uneven span count": sc_nproc_uneven,
+             "CLI -p/--append/-o URI": sc_cli_flags, "dtypes dict / lock": sc_dtypes_lock,
+             "float counts, weight column, trailing empty rows": sc_shapes, "CoolerCoarsener batchsize": sc_batchsize}
+
+
+def run_scenario(ctx_tmp, label, table):
+    import tempfile
+    import shutil
+    d = pathlib.Path(tempfile.mkdtemp(dir=str(ctx_tmp), prefix="sc_"))
+    try:
+        st, res = G.guarded(lambda: table[label](d), 120)
+    finally:
+        shutil.rmtree(d, ignore_errors=True)
+    if st != "ok":
+        return {"what": label, "exception": st, "type": res}
+    return res
+
+
+def part_params(ctx):
+    # the model once per factor used by the scenarios (same fixed input)
+    blocks = blocks_from_widths(P_WIDTHS)
+    t, sz = G.coq_bins(G.flat_of(blocks)), C.zl(G.sizes_of(blocks))
+    exprs = [f"coarsen_cooler {t} {sz} {G.coq_pixels(P_PX)} {C.z(k)} {C.z(cs)} {C.z(bs)}" for k, cs, bs in ((2, 1, 3), (3, 2, 1), (4, 7, 2))]
+    exprs.append(f"coarsen_cooler {t} {sz} {G.coq_pixels(P_PX_TAIL_EMPTY)} 2 1 1")
+    model = C.coq_eval(HDR, exprs, tmpdir=ctx.tmp / "paramv")
+    for (k, px), mo in zip(((2, P_PX), (3, P_PX), (4, P_PX), (2, P_PX_TAIL_EMPTY)), model):
+        eb, ep = _p_expect(k, px)
+        case = {"fn": "param-scenario model", "k": k}
+        ctx.compare("model vs block aggregation on the scenario input", case, [eb, ep], [[list(r) for r in mo[0]], [list(p) for p in mo[1]]])
+    for label in SCENARIOS:
+        case = {"fn": "param-scenario", "label": label}
+        ctx.case(case, nontrivial=True, kind="params")
+        bad = run_scenario(ctx.tmp, label, SCENARIOS)
+        if bad:
+            ctx.fail(case, bad, None)
+    return len(SCENARIOS)
+
+
 # ----------------------------------------------------------------------- run
 def run(ctx):
     import time
@@ -767,7 +964,7 @@ def run(ctx):
     scopes, times = {}, {}
     for name, fn in (("coarsen_bins_cases", part_bins), ("prune_cases", part_prune), ("api_runs", part_api),
                      ("width_sweep_runs", part_widths), ("chains", part_chain), ("merge_interleavings", part_merge),
-                     ("agg_runs", part_agg)):
+                     ("agg_runs", part_agg), ("param_scenarios", part_params)):
         t0 = time.time()
         scopes[name] = fn(ctx)
         times[name] = round(time.time() - t0, 1)
@@ -779,6 +976,8 @@ def run(ctx):
 def replay(ctx, case):
     fn = case["fn"]
     tmpdir = ctx.tmp
+    if fn == "param-scenario":
+        return run_scenario(tmpdir, case["label"], SCENARIOS) is None
     if fn == "coarsen_bins":
         blocks = blocks_from_widths(case["widths"])
         st, res = G.guarded(lambda: impl_coarsen_bins(blocks, case["k"]), 20)
